@@ -16,11 +16,15 @@ package topics
 //@   ensures[arrays] (fresh(arr(*qoss)) || arr(*qoss) == arr(old(*qoss))) && (fresh(arr(*subs)) || arr(*subs) == arr(old(*subs)))
 //@   modifies *subs, *qoss, capelems(old(*subs)), capelems(old(*qoss))
 
+// Ghost: nretain counts the Retain calls this goroutine has made, lastretain is the message of the last one (C08:
+// every PUBLISH with the retain flag reaches the retained store, no other does).
 //@ iface Provider.Retain
 //@   trusted
 //@   results err
 //@   flag args self, msg
-//@   modifies allfields(rnode), allfields(snode), allfields(MemTopics)
+//@   flag impls (*MemTopics).Retain
+//@   ensures[ghostdef-retain] gfield(0, "nretain") == old(gfield(0, "nretain"))+1 && gfield(0, "lastretain") == msg
+//@   modifies allfields(rnode), allfields(snode), allfields(MemTopics), allmaps(map[string]*rnode), msg.remlen, msg.dirty, msg.packetID, elems(msg.packetID), message.gPacketID, gfield(0, "encn"), gfield(0, "encarr"), gfield(0, "encoff"), gfield(0, "encAt"), gfield(0, "nretain"), gfield(0, "lastretain")
 
 //@ func (*Manager).Subscribers
 //@   results err
@@ -32,7 +36,8 @@ package topics
 //@ func (*Manager).Retain
 //@   results err
 //@   requires m.p != nil
-//@   modifies allfields(rnode), allfields(snode), allfields(MemTopics)
+//@   ensures[C08:passed-on] gfield(0, "nretain") == old(gfield(0, "nretain"))+1 && gfield(0, "lastretain") == msg
+//@   modifies allfields(rnode), allfields(snode), allfields(MemTopics), allmaps(map[string]*rnode), msg.remlen, msg.dirty, msg.packetID, elems(msg.packetID), message.gPacketID, gfield(0, "encn"), gfield(0, "encarr"), gfield(0, "encoff"), gfield(0, "encAt"), gfield(0, "nretain"), gfield(0, "lastretain")
 
 // Subscribe: grants min(requested, MaxQosAllowed); a rejected filter or QoS yields QosFailure (0x80) and an error.
 // Ghost log (per goroutine): the k-th Subscribe call (k = nsub before the call) records the filter it was given
@@ -157,3 +162,31 @@ package topics
 //@   ensures[inv] vdefRTrie(rn.rnodes)
 //@   ensures[C08:cleared] len(topic) == 0 ==> err == nil && rn.msg == nil && len(rn.buf) == 0 && rn.rnodes == old(rn.rnodes)
 //@   modifies allfields(rnode), allmaps(map[string]*rnode)
+
+// sync.RWMutex: lock discipline only (no self-deadlock, balanced on every path).
+//@ extern (*sync.RWMutex).Lock
+//@   pure
+//@   flag recv rw
+//@   flag lock acquire
+//@ extern (*sync.RWMutex).Unlock
+//@   pure
+//@   flag recv rw
+//@   flag lock release
+//@ extern (*sync.RWMutex).RLock
+//@   pure
+//@   flag recv rw
+//@   flag lock racquire
+//@ extern (*sync.RWMutex).RUnlock
+//@   pure
+//@   flag recv rw
+//@   flag lock rrelease
+
+// MemTopics.Retain (C08): a PUBLISH with an empty payload clears the topic's retained message, any other replaces it;
+// both under the retained-store lock, released on every path.
+//@ func (*MemTopics).Retain
+//@   results err
+//@   requires mt.rroot != nil && mt.rroot.rnodes != nil && vdefRTrie(mt.rroot.rnodes) && vdefPubIn(msg) && !held(addr(mt.rmu))
+//@   atcall (*rnode).rremove requires[C08:clear-on-empty] len(msg.payload) == 0 && callee_rn == mt.rroot && sameslice(callee_topic, msg.topic) && held(addr(mt.rmu))
+//@   atcall (*rnode).rinsert requires[C08:store-otherwise] len(msg.payload) != 0 && callee_rn == mt.rroot && sameslice(callee_topic, msg.topic) && callee_msg == msg && held(addr(mt.rmu))
+//@   ensures[inv] vdefRTrie(mt.rroot.rnodes) && mt.rroot == old(mt.rroot)
+//@   modifies allfields(rnode), allmaps(map[string]*rnode), msg.remlen, msg.dirty, msg.packetID, elems(msg.packetID), message.gPacketID, gfield(0, "encn"), gfield(0, "encarr"), gfield(0, "encoff"), gfield(0, "encAt")
